@@ -1,14 +1,151 @@
-/- Line-protocol driver of the Geom cluster (see lakefile.toml). -/
+/- Line-protocol driver of the Geom cluster (C02, C03): facet permutations, permuted-table rows,
+`table_access` subscripts, reference-entity maps over the regenerated reference cells, entity
+selection, macro layout indices, and the static predicate `readsPerm` on exported ASTs.
+
+Requests (one s-expression per line) and replies:
+  (ping)                                              -> pong
+  (perm <facettype> <ref> <rot> (<pt> …))             -> (<pt> …)        pt = (x …) rationals
+  (permcode <facettype> <N> (<pt> …))                 -> (<pt> …)        rot = N/2, ref = N%2
+  (rows <facettype>)                                  -> ((rot ref) …)   in table-row order
+  (numcodes <facettype>)                              -> n
+  (sigma <facettype> <N>)                             -> (σ0 σ1 …)
+  (mapfacet <cell> <facet> (<pt> …))                  -> (<pt> …)
+  (mapedge <cell> <edge> (<pt> …))                    -> (<pt> …)
+  (mapintegral <cell> cell|facet|ridge|vertex <entity> (<pt> …)) -> (<pt> …)
+  (entity cell|facet|vertex|ridge plus|minus|none)    -> 0 | (eli k)
+  (aindex n m ri rj i j) (aindex1 n r i) (windex (d …) k r i) (xindex nodes r node c) -> nat
+  (ispermuted <rtol> <atol> <table>)                  -> true|false      table[perm][entity][point][dof]
+  (subscripts <permuted> <uniform> <piecewise> <minus> (<qperm> …) <entity> <iq>) -> (qp e q)
+  (reads <array> <stmt>)                              -> true|false      stmt in the export schema
+-/
 import FfcxModel.Driver.Loop
+import FfcxModel.IR.Perm
+import FfcxModel.Geometry.RefCell
+import FfcxModel.Generated.RefCells
+import FfcxModel.LNodes.Wire
 
-open Ffcx
+open Ffcx Ffcx.Perm Ffcx.Geometry
 
+namespace GeomDriver
+
+def facetType (s : Sexp) : Except String FacetType := do
+  match (← s.asAtom) with
+  | "point" => .ok .point
+  | "interval" => .ok .interval
+  | "triangle" => .ok .triangle
+  | "quadrilateral" => .ok .quadrilateral
+  | a => .error s!"unknown facet type {a}"
+
+def ratList (s : Sexp) : Except String (List Rat) := do (← s.asList).mapM Sexp.asRat
+def natList (s : Sexp) : Except String (List Nat) := do (← s.asList).mapM Sexp.asNat
+def points (s : Sexp) : Except String (List (List Rat)) := do (← s.asList).mapM ratList
+
+def ofPoint (p : List Rat) : Sexp := .list (p.map Sexp.ofRat)
+def ofPoints (ps : List (List Rat)) : Sexp := .list (ps.map ofPoint)
+
+def cell (s : Sexp) : Except String RefCellData := do
+  let n ← s.asAtom
+  match Generated.refCells.find? (fun c => c.name == n) with
+  | some c => .ok c
+  | none => .error s!"unknown cell {n}"
+
+def table (s : Sexp) : Except String (Table Rat) := do
+  (← s.asList).mapM fun e => do (← e.asList).mapM fun q => do (← q.asList).mapM ratList
+
+def restriction (s : Sexp) : Except String Restriction := do
+  match (← s.asAtom) with
+  | "plus" => .ok .plus
+  | "minus" => .ok .minus
+  | "none" => .ok .none
+  | a => .error s!"unknown restriction {a}"
+
+def entityType (s : Sexp) : Except String EntityType := do
+  match (← s.asAtom) with
+  | "cell" => .ok .cell
+  | "facet" => .ok .facet
+  | "vertex" => .ok .vertex
+  | "ridge" => .ok .ridge
+  | a => .error s!"unknown entity type {a}"
+
+def integralKind (s : Sexp) : Except String IntegralKind := do
+  match (← s.asAtom) with
+  | "cell" => .ok .cell
+  | "facet" => .ok .facet
+  | "ridge" => .ok .ridge
+  | "vertex" => .ok .vertex
+  | a => .error s!"unknown integral kind {a}"
+
+end GeomDriver
+
+open GeomDriver in
 def dispatch (req : Sexp) : Except String Sexp :=
   match req with
-  | .list (.atom cmd :: _args) =>
-    match cmd with
-    | "ping" => .ok (.atom "pong")
-    | _ => .error s!"unknown command {cmd}"
+  | .list (.atom cmd :: args) =>
+    match cmd, args with
+    | "ping", _ => .ok (.atom "pong")
+    | "perm", [t, ref, rot, pts] => do
+      let t ← facetType t
+      let ref ← ref.asNat
+      let rot ← rot.asNat
+      let pts ← points pts
+      .ok (ofPoints (pts.map (permutePoint t ref rot)))
+    | "permcode", [t, n, pts] => do
+      let t ← facetType t
+      let n ← n.asNat
+      let pts ← points pts
+      .ok (ofPoints (pts.map (permuteByCode t n)))
+    | "rows", [t] => do
+      let t ← facetType t
+      .ok (.list ((permRows t.numRot t.numRef (fun ref rot => (rot, ref))).map
+        (fun p => .list [Sexp.ofNat p.1, Sexp.ofNat p.2])))
+    | "numcodes", [t] => do
+      let t ← facetType t
+      .ok (Sexp.ofNat t.numCodes)
+    | "sigma", [t, n] => do
+      let t ← facetType t
+      let n ← n.asNat
+      .ok (.list ((sigmaOfCode t n).map Sexp.ofNat))
+    | "mapfacet", [c, f, pts] => do
+      let c ← cell c
+      let f ← f.asNat
+      let pts ← points pts
+      .ok (ofPoints (mapFacetPoints c f pts))
+    | "mapedge", [c, e, pts] => do
+      let c ← cell c
+      let e ← e.asNat
+      let pts ← points pts
+      .ok (ofPoints (mapEdgePoints c e pts))
+    | "mapintegral", [c, k, e, pts] => do
+      let c ← cell c
+      let k ← integralKind k
+      let e ← e.asNat
+      let pts ← points pts
+      .ok (ofPoints (mapIntegralPoints c k e pts))
+    | "entity", [t, r] => do
+      let t ← entityType t
+      let r ← restriction r
+      match entity t r with
+      | .lit0 => .ok (.atom "0")
+      | .eli k => .ok (.list [.atom "eli", Sexp.ofNat k])
+    | "aindex", [n, m, ri, rj, i, j] => do
+      .ok (Sexp.ofNat (aIndex (← n.asNat) (← m.asNat) (← ri.asNat) (← rj.asNat) (← i.asNat) (← j.asNat)))
+    | "aindex1", [n, r, i] => do
+      .ok (Sexp.ofNat (aIndex1 (← n.asNat) (← r.asNat) (← i.asNat)))
+    | "windex", [dims, k, r, i] => do
+      .ok (Sexp.ofNat (wIndex (← natList dims) (← k.asNat) (← r.asNat) (← i.asNat)))
+    | "xindex", [nodes, r, node, c] => do
+      .ok (Sexp.ofNat (xIndex (← nodes.asNat) (← r.asNat) (← node.asNat) (← c.asNat)))
+    | "ispermuted", [rtol, atol, t] => do
+      .ok (Sexp.ofBool (isPermutedTable (← rtol.asRat) (← atol.asRat) (← table t)))
+    | "subscripts", [p, u, pw, minus, qperm, e, iq] => do
+      let fl : TableFlags := ⟨← p.asBool, ← u.asBool, ← pw.asBool⟩
+      let s := tableSubscripts fl (← minus.asBool) (← natList qperm) (← e.asNat) (← iq.asNat)
+      .ok (.list [Sexp.ofNat s.1, Sexp.ofNat s.2.1, Sexp.ofNat s.2.2])
+    | "reads", [a, s] => do
+      let a ← a.asAtom
+      let st ← LNodes.readStmt s
+      .ok (Sexp.ofBool (readsS a st))
+    | _, _ => .error s!"unknown command or wrong arity: {cmd}"
   | _ => .error "request must be a list"
 
 def main : IO Unit := Driver.run dispatch
